@@ -131,7 +131,7 @@ func (sr *StyleResolver) Resolve(styleName string) *ResolvedStyle {
 
 	// Detect heading from default-outline-level
 	if styleDef.DefaultOutlineLevel != "" {
-		if level, err := strconv.Atoi(styleDef.DefaultOutlineLevel); err == nil && level >= 1 && level <= 9 {
+		if level, err := strconv.Atoi(styleDef.DefaultOutlineLevel); err == nil && level >= 1 && level <= 10 {
 			resolved.IsHeading = true
 			resolved.HeadingLevel = level
 		}
@@ -252,6 +252,7 @@ func detectBuiltInHeading(styleName string) (bool, int) {
 		"heading1": 1, "heading2": 2, "heading3": 3,
 		"heading4": 4, "heading5": 5, "heading6": 6,
 		"heading7": 7, "heading8": 8, "heading9": 9,
+		"heading_10": 10, "heading10": 10,
 		"title": 1, "subtitle": 2,
 	}
 
@@ -262,6 +263,11 @@ func detectBuiltInHeading(styleName string) (bool, int) {
 
 	// Pattern match: "Heading 1", "Heading 2", etc.
 	if strings.HasPrefix(name, "heading") {
+		// "Heading 10" is the deepest predefined ODF heading; look for it
+		// first, its name contains the digit of "Heading 1".
+		if strings.Contains(name, "10") {
+			return true, 10
+		}
 		for i := 1; i <= 9; i++ {
 			if strings.Contains(name, strconv.Itoa(i)) {
 				return true, i
